@@ -519,6 +519,7 @@ type Specs struct {
 	Preds    map[string]*Pred     // key: pkg + "." + name, and bare name fallback
 	Monitors []*Monitor
 	Ghosts   map[string]string    // ghost component name -> sort spec
+	GhostLocal map[string]bool
 	Axioms   []Clause
 	Files    []string
 }
@@ -536,7 +537,7 @@ var specKeywords = map[string]bool{
 }
 
 func loadSpecs(files []string) (*Specs, error) {
-	sp := &Specs{Funcs: map[string]*FuncSpec{}, Preds: map[string]*Pred{}, Ghosts: map[string]string{}}
+	sp := &Specs{Funcs: map[string]*FuncSpec{}, Preds: map[string]*Pred{}, Ghosts: map[string]string{}, GhostLocal: map[string]bool{}}
 	for _, f := range files {
 		if err := sp.loadFile(f); err != nil {
 			return nil, err
@@ -836,7 +837,13 @@ func (sp *Specs) loadFile(path string) error {
 			if k < 0 {
 				return fail(d, "ghost name : sort")
 			}
-			sp.Ghosts[strings.TrimSpace(txt[:k])] = strings.TrimSpace(txt[k+1:])
+			name := strings.TrimSpace(txt[:k])
+			if strings.HasPrefix(name, "local ") {
+				// thread-local ghost: knowledge of the executing thread, never changed behind its back
+				name = strings.TrimSpace(strings.TrimPrefix(name, "local "))
+				sp.GhostLocal[name] = true
+			}
+			sp.Ghosts[name] = strings.TrimSpace(txt[k+1:])
 		case "axiom":
 			c, err := clause(d)
 			if err != nil {
